@@ -99,7 +99,22 @@ fn crossing_strat() -> impl Strategy<Value = Case> {
 
 fn oracle(c: &Case, ctx: &mut Ctx) -> CaseResult {
 	let mut sim = c.spec.build(false);
-	let r = oracle_inner(c, ctx, &mut sim);
+	let r = match std::panic::catch_unwind(std::panic::AssertUnwindSafe(|| oracle_inner(c, ctx, &mut sim))) {
+		Ok(r) => r,
+		Err(payload) => {
+			if ctx.replay {
+				println!("==== history (panicked) ====\n{}", dump_history(&sim));
+			}
+			let (msg, loc) = vcore::take_last_panic().unwrap_or_default();
+			if msg.contains("Latest counterparty commitment secret was invalid") && blocked_raa_update_lost_on_reload(&sim) {
+				// listed finding, matched on its mechanism (see known_findings.json)
+				Err(Failure::new("panic", format!("panic at {}: {}", loc, msg)).with_key("panic/commitment-secret-rejected/blocked-raa-update-dropped-on-stale-reload"))
+			} else {
+				vcore::set_last_panic(Some((msg, loc)));
+				std::panic::resume_unwind(payload)
+			}
+		},
+	};
 	if ctx.replay && r.is_err() {
 		println!("==== history ====\n{}", dump_history(&sim));
 	}
